@@ -18,7 +18,10 @@ pub mod c11;
 pub mod c12;
 pub mod c13;
 pub mod c16;
+pub mod c17;
+pub mod c18;
 pub mod c19;
+pub mod c20;
 
 pub fn run(prop: &str, tier: &str) -> ! {
 	match prop {
@@ -35,7 +38,10 @@ pub fn run(prop: &str, tier: &str) -> ! {
 		"C12" => c12::run(tier),
 		"C13" => c13::run(tier),
 		"C16" => c16::run(tier),
+		"C17" => c17::run(tier),
+		"C18" => c18::run(tier),
 		"C19" => c19::run(tier),
+		"C20" => c20::run(tier),
 		_ => machinery_error(&format!("unknown property {}", prop)),
 	}
 }
